@@ -631,7 +631,8 @@ def native_fuzz(run, b, mutf):
     os.makedirs(fz, exist_ok=True)
     testbin = os.path.join(fz, "wsverif.test")
     env = dict(os.environ, **vlib.GOENV)
-    p = subprocess.run(["go", "test", "-tags", "verif", "-c", "-o", testbin, "./cmd/wsverif"], cwd=vlib.HARNESS, env=env, capture_output=True, text=True)
+    tag = "verif_nohooks" if run.extra.get("hooks_off") else "verif"
+    p = subprocess.run(["go", "test", "-tags", tag, "-c", "-o", testbin, "./cmd/wsverif"], cwd=vlib.HARNESS, env=env, capture_output=True, text=True)
     if p.returncode != 0:
         raise Infra("fuzz test binary build failed:\n" + p.stdout + p.stderr)
     secs = int(os.environ.get("VERIF_FUZZ_SECONDS", "40"))
